@@ -507,12 +507,46 @@ def linearize(grammar, regexes, limit: int = 150) -> Optional[list]:
     return out
 
 
+_GJ_CACHE: dict[str, Any] = {}
+
+
 def get_grammar(spec: str):
     if spec not in _SPEC_CACHE:
         g, _ = gio.parse_spec(spec)
         gj, regexes = gio.grammar_to_json(g)
         _SPEC_CACHE[spec] = (g, regexes)
+        _GJ_CACHE[spec] = gj
     return _SPEC_CACHE[spec]
+
+
+def chart_sets(p) -> list:
+    """the ordinary states of every column of the parser's table, as sorted lists of (state, children structure)"""
+    def tj(t):
+        if not t.children:
+            return str(t.symbol)
+        return "(" + " ".join(tj(c) for c in t.children) + ")"
+    return [sorted({(str(st), " ".join(tj(c) for c in st.children)) for st in col.states if not st.is_incomplete})
+            for col in p._table]
+
+
+def chart_probe(grammar, word, lens) -> dict:
+    """Does the CHART (not the parses) depend on the fragmentation?  The processed columns of the table after
+    `word` at once and after the pieces `lens` (the last column is kept unprocessed in both), as sets of ordinary
+    states.  Observation only (Props/C13.lean: C13_earley_close_core_needs_ok explains a difference)."""
+    from fandango.language.grammar.parser.iterative_parser import IterativeParser
+    charts, parses = [], []
+    for pieces in ([word], split(word, lens)):
+        p = IterativeParser(grammar.rules)
+        p.new_parse()
+        trees: list = []
+        for pc in pieces:
+            trees = sorted({json.dumps(gio.tree_to_json(p.collapse(t)), separators=(",", ":"))
+                            for t, c in p.consume(pc) if c})
+        charts.append(chart_sets(p))
+        parses.append(trees)
+    diff_cols = [i for i, (a, b) in enumerate(zip(charts[0], charts[1])) if a != b]
+    return {"lens": list(lens), "columns": len(charts[0]), "differing_columns": diff_cols,
+            "same_parses": parses[0] == parses[1], "n_parses": len(parses[0])}
 
 
 def gen_words(grammar, kind: str, rng: random.Random, n_words: int, max_len: int) -> tuple[list, list]:
@@ -846,8 +880,9 @@ def handle(case: dict) -> dict:
                 scans.setdefault(json.dumps(c, sort_keys=True), c)
             runs.append({"comp": list(lens), "steps": [
                 {"leaves": sorted(set(json.dumps(leaves_of(json.loads(t))) for t in s["parses"])),
+                 "trees": s["parses"],
                  "can_continue": s["can_continue"], "resumable": s["resumable"]} for s in r["steps"]],
-                "aligned": r["aligned"]})
+                "aligned": r["aligned"], "raised": r.get("raised")})
         # -- the protocol path (one-unit fragments whatever the chunks handed to add_receive)
         if case.get("io", True) and n >= 1:
             io_lens = rng.choice(comps) if comps else (n,)
@@ -860,8 +895,12 @@ def handle(case: dict) -> dict:
                 c["oracle"] = oracle.tables([(c["term"][1], c["pre"] + c["rest"])])
         rec["scans"] = scan_list
         rec["runs"] = runs
-        if alts is not None:
-            infixes = [wu[i:j] for i in range(n + 1) for j in range(i, n + 1)]
-            rec["oracle"] = oracle.tables([(r, z) for r in rids for z in infixes])
+        # every (regex, infix of the input) pair: the whole-run models (linear engine, engine of the real closure)
+        infixes = [wu[i:j] for i in range(n + 1) for j in range(i, n + 1)]
+        rec["oracle"] = oracle.tables([(r, z) for r in rids for z in infixes])
+        if case.get("chart_probe"):
+            rec["chart_probe"] = [chart_probe(grammar, word, tuple(l)) for l in case["chart_probe"]
+                                  if sum(l) == n]
         recs.append(rec)
-    return {"words": recs, "alts": alts, "patterns": len(regexes.patterns), "n_members": len(members)}
+    return {"words": recs, "alts": alts, "gj": _GJ_CACHE.get(case["spec"]), "patterns": len(regexes.patterns),
+            "n_members": len(members)}
